@@ -106,7 +106,14 @@ def invalidate_cache(*callables: Callable) -> Callable:
                 invalidate_cached_properties(args[0])
             if invalidate_lru_caches is not None:
                 invalidate_lru_caches()
-            return func(*args, **kwargs)
+            try:
+                return func(*args, **kwargs)
+            finally:
+                # again: the call may have read (and re-cached) them while running
+                if invalidate_cached_properties is not None and args:
+                    invalidate_cached_properties(args[0])
+                if invalidate_lru_caches is not None:
+                    invalidate_lru_caches()
 
         return wrapper
 
